@@ -105,6 +105,7 @@ inductive Why where
   | helloTimeout | helloClosed            -- RecvTimeout(helloTimeout) failed: no ABORT is sent
   | notHello (typ : Nat)
   | emptyRealm
+  | routerClosed                          -- the router goroutine has exited (after Router.Close)
   | routerClosing
   | noSuchRealm
   | realmCreateFailed
@@ -204,6 +205,8 @@ structure RouterCfg where
   template : Option RealmCfg
   /-- `r.closed` is set (Router.Close in progress) -/
   closing : Bool := false
+  /-- Router.Close has completed: `post` refuses the action -/
+  closed : Bool := false
 
 /-- Per-handshake environment. -/
 structure Env where
@@ -589,6 +592,7 @@ def abortWith (reason : String) (why : Why) (sent : List Sent) (created : Option
 
 /-- realm lookup / creation inside the router's action function -/
 def lookupRealm (rt : RouterCfg) (realm : String) : Except Why (RealmCfg × Option RealmCfg) :=
+  if rt.closed then .error .routerClosed else
   if rt.closing then .error .routerClosing else
   match findRealm rt.realms realm with
   | some rc => .ok (rc, none)
@@ -602,8 +606,14 @@ def lookupRealm (rt : RouterCfg) (realm : String) : Except Why (RealmCfg × Opti
       else .error .realmCreateFailed
 
 def reasonOfLookup : Why → String
+  | .routerClosed => Gen.N.ErrSystemShutdown
   | .routerClosing => Gen.N.ErrSystemShutdown
   | _ => Gen.N.ErrNoSuchRealm
+
+/-- HELLO.Details as `authClient` and the session see them: `AttachClient` stores the transport
+    details (when there are any) under `transport`, replacing what the client wrote there. -/
+def helloDetails (env : Env) (details : Dict) : Dict :=
+  if env.transport.isEmpty then details else details.set "transport" (.dict env.transport)
 
 /-- everything after the realm is known -/
 def attachRealm (fx : Facts) (rc : RealmCfg) (created : Option RealmCfg) (env : Env)
@@ -611,7 +621,7 @@ def attachRealm (fx : Facts) (rc : RealmCfg) (created : Option RealmCfg) (env : 
   if !hasClientRole details then
     abortWith Gen.N.ErrNoSuchRole .noRoles [] created script
   else
-    let details' := if env.transport.isEmpty then details else details.set "transport" (.dict env.transport)
+    let details' := helloDetails env details
     let r := authClient fx rc env details' script
     match r.res with
     | .error e => abortWith Gen.N.ErrAuthenticationFailed e r.sent created r.rest
